@@ -391,6 +391,16 @@ Definition change_is_valid (d : dataset) (s : state) : bool :=
 Definition state_is_valid (d : dataset) (s : state) : bool :=
   forallb (fun k => within d k (v_total (var s k))) all_vk.
 
+Definition with_limit (d : dataset) (l : option (vk * Q)) : dataset :=
+  mkData (d_pus d) (d_actions d) (d_base_attrs d) l.
+
+(* the value quoted in the rejection reason (Bounds.BoundErrorAsText of the UndoableValue) *)
+Definition rejection_quote (d : dataset) (s : state) : option Z :=
+  match d_limit d with
+  | Some (k, _) => if within d k (undoable_value s k) then None else Some (undoable_value s k)
+  | None => None
+  end.
+
 (* ---------- histories ---------- *)
 Inductive op :=
 | TryAccept (i : nat)                 (* propose i; accept                *)
